@@ -83,6 +83,16 @@ deriving Repr, DecidableEq
 /-- Every version the path had since (and including) the last sync, oldest first. -/
 def File.versions (f : File) : List (Option Bytes) := f.dur :: (f.hist ++ [f.vol])
 
+/-- `synced`: every byte of the current content has been `sync_all`ed. -/
+def File.isSynced (f : File) : Bool := f.dur == f.vol && f.hist.isEmpty
+
+/-- `rename(tmp, main)`: the path `main` now shows `tmp`'s content. Volatile namespace: atomic. After power loss the
+    path may still show any older version of `main`; if `tmp`'s content was not synced before the rename, any of `tmp`'s
+    own non-durable versions may show up under the new name as well. -/
+def File.renamedOver (main tmp : File) : File :=
+  { vol := tmp.vol, dur := main.dur,
+    hist := main.hist ++ [main.vol] ++ (if tmp.isSynced then [] else tmp.versions) }
+
 /-- States of the medium on the way from version `a` to version `b`: a pure append may be torn at any byte. -/
 def between (a b : Option Bytes) : List (Option Bytes) :=
   match a, b with
